@@ -2,6 +2,7 @@
 # usage: ./run.sh <C01..C17|replay> <quick|thorough|replay-file>
 # Rebuilds the harness against /repo's current working tree (cargo tracks the path dependency), then runs the check.
 set -u
+if [ "${1:-}" = "replay" ] && [ -n "${2:-}" ]; then set -- replay "$(readlink -f "$2")"; fi
 cd /verif/harness || exit 2
 export CARGO_NET_OFFLINE=true
 if ! cargo build --release -q 2>/verif/harness/build.err; then
